@@ -38,7 +38,15 @@ func c17Build(base string, levels []int) []string {
 	dirs := make([]string, len(levels))
 	cur := base
 	for i, cfg := range levels {
-		cur = filepath.Join(cur, fmt.Sprintf("d%d", i))
+		name := fmt.Sprintf("d%d", i)
+		if i%2 == 1 {
+			// a name that is also a glob: "d[1]x" must not be taken for its sibling "d1x"
+			name = fmt.Sprintf("d[%d]x", i)
+			decoy := filepath.Join(cur, fmt.Sprintf("d%dx", i))
+			_ = os.MkdirAll(decoy, 0o755)
+			_ = os.WriteFile(filepath.Join(decoy, "spokfile"), []byte("# decoy\ntask decoy() {}\n"), 0o644)
+		}
+		cur = filepath.Join(cur, name)
 		dirs[i] = cur
 		_ = os.MkdirAll(cur, 0o755)
 		w := func(name, content string) { _ = os.WriteFile(filepath.Join(cur, name), []byte(content), 0o644) }
